@@ -234,10 +234,20 @@ func (h *Handler) handleStreamOpenAsync(ctx context.Context, streamID uint64, re
 		sessionKey: sessionKey,
 	}
 
+	// A stream ID can be opened again while an earlier record is still tracked
+	// (a peer that reconnected restarts its stream IDs at 1, or a duplicate
+	// open). The new record replaces the old one; count the slot only once and
+	// close the displaced connection so it does not linger until its idle timeout.
 	h.mu.Lock()
+	displaced := h.connections[streamID]
 	h.connections[streamID] = ac
-	h.connCount.Add(1)
+	if displaced == nil {
+		h.connCount.Add(1)
+	}
 	h.mu.Unlock()
+	if displaced != nil {
+		displaced.Close()
+	}
 
 	h.logger.Debug("forward stream opened",
 		"key", key,
@@ -246,8 +256,7 @@ func (h *Handler) handleStreamOpenAsync(ctx context.Context, streamID uint64, re
 
 	// Send ACK with our ephemeral public key
 	if err := h.writer.WriteStreamOpenAck(remoteID, streamID, requestID, localAddr.IP, uint16(localAddr.Port), ephPub); err != nil {
-		ac.Close()
-		h.removeConnection(streamID)
+		h.closeRecord(ac)
 		return
 	}
 
@@ -311,7 +320,7 @@ func (h *Handler) HandleStreamReset(peerID identity.AgentID, streamID uint64, er
 
 // readLoop reads data from the target and forwards to the stream.
 func (h *Handler) readLoop(ac *ActiveConnection) {
-	defer h.closeConnection(ac.StreamID, ac.RemoteID, nil)
+	defer h.closeRecord(ac)
 	defer recovery.RecoverWithLog(h.logger, "forward.readLoop")
 
 	// Account for encryption overhead when reading
@@ -381,6 +390,27 @@ func (h *Handler) closeConnection(streamID uint64, peerID identity.AgentID, err 
 	// Notify stream is closed
 	if h.writer != nil {
 		h.writer.WriteStreamClose(peerID, streamID)
+	}
+}
+
+// closeRecord tears down exactly the given connection record. The read loop
+// (and the failed-ACK path) must not clean up by stream ID: by the time it
+// runs, the ID may already belong to a newer connection, which would then be
+// closed and un-tracked in place of the old one.
+func (h *Handler) closeRecord(ac *ActiveConnection) {
+	h.mu.Lock()
+	tracked := h.connections[ac.StreamID] == ac
+	if tracked {
+		delete(h.connections, ac.StreamID)
+		h.connCount.Add(-1)
+	}
+	h.mu.Unlock()
+
+	ac.Close()
+
+	// Notify the peer only if this record was still the one it talks to
+	if tracked && h.writer != nil {
+		h.writer.WriteStreamClose(ac.RemoteID, ac.StreamID)
 	}
 }
 
